@@ -1,10 +1,10 @@
 CONSTANTS
-  FAMILY = "one"
-  D = 4
-  NV = 1
+  FAMILY = "two"
+  D = 2
+  NV = 2
   DeltaVecs <- DV_std
-  Dists <- Dists_two
-  Lim2 <- Lim2_none
+  Dists <- Dists_sym
+  Lim2 <- Lim2_quick
   MapIds = {1}
   Conds <- Conds_quick
 INIT Init
